@@ -1,6 +1,7 @@
 (* C08 driver. case: "<mode> <init> <events>" (syntax: see harness/legs_c08.go).
    Answer line: <model>\t<spec>\t<classes>
-     model = what the faithful model of the server predicts, step by step (same format as the implementation leg),
+     model = what the faithful model of the server predicts, step by step (same format as the implementation leg:
+             per file the diagnostics as <type>@<line>#<tag>, tag = hash of columns and message text),
      spec  = the same line with every view the property constrains replaced by the demanded one when they differ
              (up to order); "-" for a non-conformant history (the property says nothing about it),
      classes = names of the finding classes (Spec/FreshStart.v) met by the history. *)
@@ -21,6 +22,8 @@ let c08_text (code : string) : stmt list =
       | 'd' -> go (i + 2) (SD (n_of_int (Char.code code.[i+1] - 48)) :: acc)
       | 'u' -> go (i + 2) (SU (n_of_int (Char.code code.[i+1] - 48)) :: acc)
       | 'r' -> go (i + 2) (SR (c08_fid code.[i+1]) :: acc)
+      | 'f' -> go (i + 2) (SF (n_of_int (Char.code code.[i+1] - 48)) :: acc)
+      | 'g' -> go (i + 1) (SG :: acc)
       | _ -> failwith ("bad content " ^ code) in
     go 0 []
   end
@@ -57,11 +60,44 @@ let c08_action (ev : string) : action =
   | 'K' -> ARaw (EDiskRemove (fst (c08_split_eq rest)))
   | _ -> failwith ("bad event " ^ ev)
 
+(* the tag of the toy analysis (Proofs/EventsToy.v) rendered back to what the client is shown beyond type and start line:
+   "<start col>,<end line>,<end col>:<message>", then hashed exactly as harness/c08_server.go c08Tag does (FNV-1a, 32 bit,
+   base 36). The implementation leg hashes what the REAL server published, so every case compares columns and texts.
+   C08_RAWTAG=1 (both sides) prints the string itself, spaces as "_". *)
+let c08_gname (tag : int) : string = if tag = 100 then "gf" else "g" ^ string_of_int tag
+let c08_raw_tag (t : int) (ln : int) (tag : int) : string =
+  let mk sc ec msg = Printf.sprintf "%d,%d,%d:[Warn type:%d], %s" sc ln ec t msg in
+  let ncols = if tag = 100 then (0, 2) else (6, 8) in
+  match t with
+  | 1 -> mk 0 1 "`)` can not start"
+  | 2 -> mk (fst ncols) (snd ncols) ("var not define: " ^ c08_gname tag)
+  | 3 -> mk (fst ncols) (snd ncols) ("crcular reference or load order error, var not define: " ^ c08_gname tag)
+  | 4 -> mk 6 7 "v declared and not used"
+  | 6 -> mk 0 12 ("require file error, not find file:" ^ c08_names.(tag))
+  | 10 -> mk 0 11 (Printf.sprintf "gf call func param num(3) > func define param num(%d)" tag)
+  | _ -> mk 0 0 (Printf.sprintf "?%d" tag)
+let c08_base36 (h : int) : string =
+  if h = 0 then "0" else begin
+    let digits = "0123456789abcdefghijklmnopqrstuvwxyz" in
+    let rec go h acc = if h = 0 then acc else go (h / 36) (String.make 1 digits.[h mod 36] ^ acc) in
+    go h ""
+  end
+let c08_rawtag_env = (try Sys.getenv "C08_RAWTAG" <> "" with Not_found -> false)
+let c08_tag (t : int) (ln : int) (tag : int) : string =
+  let raw = c08_raw_tag t ln tag in
+  if c08_rawtag_env then String.map (fun c -> if c = ' ' then '_' else c) raw else begin
+    let h = ref 2166136261 in
+    String.iter (fun c -> h := ((!h lxor Char.code c) * 16777619) land 0xFFFFFFFF) raw;
+    c08_base36 !h
+  end
+
 let c08_view (l : (file * err list) list) : string =
   if l = [] then "-" else
   String.concat ";" (List.map (fun (f, es) ->
     c08_names.(int_of_n f) ^ ":" ^
-    String.concat "," (List.map (fun ((t, ln), _) -> Printf.sprintf "%d@%d" (int_of_n t) (int_of_n ln)) es)) l)
+    String.concat "," (List.map (fun ((t, ln), tag) ->
+      let t = int_of_n t and ln = int_of_n ln in
+      Printf.sprintf "%d@%d#%s" t ln (c08_tag t ln (int_of_n tag))) es)) l)
 
 let c08_class_name (k : n) : string =
   match int_of_n k with
@@ -94,6 +130,8 @@ let () = register "c08.history" (c08_line deployed)
 let () = register "c08.raw" (c08_line deployed)
 (* watched notifications naming several files *)
 let () = register "c08.batch" (c08_line deployed)
+(* switches between texts whose diagnostics differ in the message text only *)
+let () = register "c08.tagonly" (c08_line deployed)
 (* the same history against the model with all repairs switched on / with those of round 1 / round 2 only / with none (not
    deciding legs; used by hand to validate a repair diff against a patched or an old copy of the code) *)
 let () = register "c08.history_fixed" (c08_line all_fix)
